@@ -67,17 +67,18 @@ def prjid(p):
 
 def wobj(o):
     d = vars(o)
+
+    def extra(expected):
+        # an attribute set other than the modelled one (e.g. a cache slot added to the object) must show up as a
+        # disagreement with the model, not crash the harness
+        return '' if list(d) == expected else ' UNEXPECTED-ATTRS:' + ','.join(k for k in d)
     if isinstance(o, C.CoordCart):
-        assert list(d) == ['xaxis', 'yaxis', 'zaxis', 'nval'], list(d)
-        return f'CART {fhex(o.xaxis)} {fhex(o.yaxis)} {fhex(o.zaxis)} {wopt(o.nval)}'
+        return f'CART {fhex(o.xaxis)} {fhex(o.yaxis)} {fhex(o.zaxis)} {wopt(o.nval)}' + extra(['xaxis', 'yaxis', 'zaxis', 'nval'])
     if isinstance(o, C.CoordGeo):
-        assert list(d) == ['lat', 'lon', 'ell_ht', 'orth_ht'], list(d)
-        return f'GEO {wll(o.lat)} {wll(o.lon)} {wopt(o.ell_ht)} {wopt(o.orth_ht)}'
+        return f'GEO {wll(o.lat)} {wll(o.lon)} {wopt(o.ell_ht)} {wopt(o.orth_ht)}' + extra(['lat', 'lon', 'ell_ht', 'orth_ht'])
     if isinstance(o, C.CoordTM):
-        assert list(d) == ['zone', 'east', 'north', 'ell_ht', 'orth_ht', 'hemi_north', 'projection'], list(d)
-        assert type(o.zone) is int
-        return (f'TM {o.zone} {fhex(o.east)} {fhex(o.north)} {wopt(o.ell_ht)} {wopt(o.orth_ht)} '
-                f'{1 if o.hemi_north else 0} {prjid(o.projection)}')
+        return (f'TM {o.zone if type(o.zone) is int else repr(o.zone)} {fhex(o.east)} {fhex(o.north)} {wopt(o.ell_ht)} {wopt(o.orth_ht)} '
+                f'{1 if o.hemi_north else 0} {prjid(o.projection)}') + extra(['zone', 'east', 'north', 'ell_ht', 'orth_ht', 'hemi_north', 'projection'])
     raise TypeError(f'no wire form for {type(o)}')
 
 
